@@ -61,7 +61,7 @@ def hexlit(bs, w):
 def cx_source(vectors, limit):
     """Transliterate (a sample of) the TLC vectors into static_asserts: the
     expected values are TLC's, Python only changes notation."""
-    L = ['#include <c15/c15.hpp>', '#if SBEPP_CPLUSPLUS >= 201402L',
+    L = ['#include <c15/c15.hpp>', '#if __cplusplus >= 201402L',
          'template<class S, class Tag, class T> constexpr T cx_set(T raw, bool b){ S s{raw}; sbepp::set_by_tag<Tag>(s, b); return *s; }',
          'template<class S, class Tag, class T> constexpr bool cx_get(T raw){ return sbepp::get_by_tag<Tag>(S{raw}); }']
     n = 0
